@@ -54,9 +54,12 @@ impl Statement {
                 }
                 result
             }
-            Substitution { var, rhe, .. } => {
+            Substitution { meta, var, rhe, .. } => {
                 result = result || rhe.propagate_degrees(env);
-                if env.is_local(var) {
+                // The type of the assigned variable is known from type propagation. (The
+                // environment only knows the variables declared by a declaration statement,
+                // which the later versions of a parameter are not.)
+                if meta.type_knowledge().is_local() {
                     env.set_assigned(var);
                     if let Some(range) = rhe.degree() {
                         result = result || env.set_degree(var, range);
